@@ -153,7 +153,8 @@ def run(ctx, verdict, replay=None, model_ok=True):
         k = 0
         for fmt in srcgen.FORMATS:
             for _ in range(per_fmt):
-                s = srcgen.SrcGen(rng, max_depth=4 if thorough else 3, fmt=fmt).schema("s%03d" % k)
+                s = srcgen.SrcGen(rng, max_depth=4 if thorough else 3, fmt=fmt,
+                                  features=srcgen.ALL_FEATURES + srcgen.EXTRA_FEATURES).schema("s%03d" % k)
                 k += 1
                 camp.add_schema(s, fmt)
                 plan.append((s["pkg"], s))
